@@ -761,7 +761,9 @@ Section Tape.
     exists x0 w0,
       static_new A azero V silence identity P pcenter fuel sr src slice g = Ok x0 /\
       stream_new A azero V silence identity P pcenter audio land sr slice g = Ok w0 /\
-      Inv x0 w0 /\ h_rate (x_shell x0) = param_new (g_rate g) n1.
+      Inv x0 w0 /\ h_rate (x_shell x0) = param_new (g_rate g) n1 /\
+      (* what the two handles report before the first callback *)
+      sh_pos (x_core x0) = y_pos (z_core (w_sound w0)) /\ h_mirror (x_shell x0) = h_mirror (z_shell (w_sound w0)).
   Proof.
     set (rate0 := param_new (g_rate g) n1 : param T T).
     set (sh0 := shell_new V silence identity P pcenter g).
@@ -783,7 +785,7 @@ Section Tape.
       assert (Hn : match slice with Some (st, e) => sub_chk e st | None => Ok (Z.of_nat (length audio)) end = Ok N).
       { rewrite N_slice. unfold slice_wf in Hslice. destruct slice as [[a b]|]; [|reflexivity]. rewrite sub_chk_ok by lia. reflexivity. }
       rewrite Hn. cbn [obind]. rewrite <- Hstart_def, <- Hlr_def. fold t0. reflexivity. }
-    split; [|reflexivity].
+    split; [|split; [reflexivity|]; split; reflexivity].
     exists 0%nat, 0%nat, 1%nat, false, n0, (t_pos t0), px, px, sh0,
            {| D18.dpos := D18.dec_seek land (Z.to_nat start); D18.cur := D18.dec_seek land (Z.to_nat start); D18.chunk := None |},
            Running.
